@@ -46,3 +46,24 @@ func init() {
 		return nil
 	})
 }
+
+func init() {
+	reg("known-older-revision-lacks-submodule", "C13: each of two loaded revisions of a module receives the nodes of the submodule it includes", func() error {
+		m19 := "module m { namespace \"urn:m\"; prefix m; include sub; revision 2019-01-01; leaf a { type string; } }"
+		m20 := "module m { namespace \"urn:m\"; prefix m; include sub; revision 2020-01-01; leaf a { type string; } }"
+		sub := "submodule sub { belongs-to m { prefix m; } leaf s { type string; } }"
+		ms := yang.NewModules()
+		ms.Parse(m19, "m@2019-01-01.yang")
+		ms.Parse(m20, "m@2020-01-01.yang")
+		ms.Parse(sub, "sub.yang")
+		if errs := ms.Process(); len(errs) > 0 {
+			return fmt.Errorf("process: %v", errs)
+		}
+		for _, k := range []string{"m@2019-01-01", "m@2020-01-01"} {
+			if yang.ToEntry(ms.Modules[k]).Dir["s"] == nil {
+				return fmt.Errorf("module %s lacks leaf s of the submodule it includes (the other revision received it)", k)
+			}
+		}
+		return nil
+	})
+}
